@@ -14,6 +14,8 @@
              duplicate names: zip / tar / 7z, two entries of one name straddling the limit, both orders
              tar types: regular 5 bytes + regular lim+1 + one of {hard, sym} x {-> small, -> oversized,
                          -> missing}, fifo, chr, GNU sparse / pax at lim and lim+1; symlink first
+             7z layouts: solid / non-solid, an empty file / directory / anti item before, between, after
+             configuration histories: see Histories (the limit in force is what the calls mean)
    Part (b): Cases = construct x magnitude x position as listed in CostCases.                      *)
 EXTENDS Limits
 
@@ -42,12 +44,12 @@ SevenzScns == { [Scn("sevenz_size") EXCEPT !.size = s] : s \in Around(Max7zFileS
 MemberSizes(lim) == Around(lim) \cup {5}
 SizeSeqs(lim) == UNION { [1..n -> MemberSizes(lim)] : n \in 1..MaxMembers }
 MemberScns ==
-    { [Scn("members") EXCEPT !.kind = kd, !.lim = lm, !.lim2 = MaxArchiveFileSize,
+    { [Scn("members") EXCEPT !.kind = kd, !.lim = lm, !.lim2 = MaxArchiveFileSize, !.calls = CallsFor(lm),
                              !.members = [i \in DOMAIN sq |-> Mem(sq[i], IF kd = "7z" THEN 1 ELSE i, i, "reg", 0)]] :
         kd \in {"zip", "tar", "7z"}, lm \in MemberLimits, sq \in UNION { SizeSeqs(l) : l \in MemberLimits } }
 MemberScnsOK == { s \in MemberScns : \A i \in DOMAIN s.members : s.members[i].size \in MemberSizes(s.lim) }
 Lim2Scns ==
-    IF BigLim2 THEN { [Scn("members") EXCEPT !.kind = kd, !.lim = 64 * MiB, !.lim2 = MaxArchiveFileSize,
+    IF BigLim2 THEN { [Scn("members") EXCEPT !.kind = kd, !.lim = 64 * MiB, !.lim2 = MaxArchiveFileSize, !.calls = CallsFor(64 * MiB),
                                              !.members = <<Mem(sz, 1, 1, "reg", 0)>>] :
                         kd \in {"zip", "tar"}, sz \in Around(MaxArchiveFileSize) }
     ELSE {}
@@ -56,7 +58,7 @@ Lim2Scns ==
 \* the limit, both orders, plus two small ones
 DupPairs(lim) == { <<5, lim + 1>>, <<lim + 1, 5>>, <<lim, lim + 1>>, <<lim + 1, lim>>, <<5, 6>>, <<lim + 1, lim + 1>> }
 DupScns ==
-    { [Scn("members") EXCEPT !.kind = kd, !.lim = lm, !.lim2 = MaxArchiveFileSize,
+    { [Scn("members") EXCEPT !.kind = kd, !.lim = lm, !.lim2 = MaxArchiveFileSize, !.calls = CallsFor(lm),
                              !.members = <<Mem(7, IF kd = "7z" THEN 1 ELSE 1, 1, "reg", 0),
                                            Mem(pr[1], IF kd = "7z" THEN 1 ELSE 2, 2, "reg", 0),
                                            Mem(pr[2], IF kd = "7z" THEN 1 ELSE 3, 2, "reg", 0)>>] :
@@ -73,15 +75,53 @@ TarSpecials(lim) ==
       Mem(lim, 3, 3, "sparse", 0), Mem(lim + 1, 3, 3, "sparse", 0),
       Mem(lim, 3, 3, "pax", 0), Mem(lim + 1, 3, 3, "pax", 0) }
 TarTypeScns ==
-    { [Scn("members") EXCEPT !.kind = "tar", !.lim = lm, !.lim2 = MaxArchiveFileSize,
+    { [Scn("members") EXCEPT !.kind = "tar", !.lim = lm, !.lim2 = MaxArchiveFileSize, !.calls = CallsFor(lm),
                              !.members = <<Mem(5, 1, 1, "reg", 0), Mem(lm + 1, 2, 2, "reg", 0), x>>] :
         lm \in MemberLimits, x \in UNION { TarSpecials(l) : l \in MemberLimits } }
     \cup
-    { [Scn("members") EXCEPT !.kind = "tar", !.lim = lm, !.lim2 = MaxArchiveFileSize,
+    { [Scn("members") EXCEPT !.kind = "tar", !.lim = lm, !.lim2 = MaxArchiveFileSize, !.calls = CallsFor(lm),
                              !.members = <<Mem(0, 1, 1, "sym", t), Mem(5, 2, 2, "reg", 0), Mem(lm + 1, 3, 3, "reg", 0)>>] :
         lm \in MemberLimits, t \in {2, 3} }
 TarTypeScnsOK == { s \in TarTypeScns : \A i \in DOMAIN s.members :
                       s.members[i].type \in {"sparse", "pax"} => s.members[i].size \in {s.lim, s.lim + 1} }
+
+\* ---- 7z layouts: two data members straddling the limit, solid (one folder) and non-solid (a folder each), with an
+\* entry WITHOUT data stream (empty file, directory, anti item) before, between or after them -- and none at all
+SzPairs(lim) == { <<5, lim + 1>>, <<lim + 1, 5>>, <<lim, lim + 1>> }
+SzSpecial(tp, i) == Mem(0, 0, i, tp, 0)
+SzLayout(pr, solid, tp, at) ==       \* at = 0: no special entry; 1 / 2 / 3: before / between / after
+    LET f2 == IF solid THEN 1 ELSE 2 IN
+    CASE at = 0 -> <<Mem(pr[1], 1, 1, "reg", 0), Mem(pr[2], f2, 2, "reg", 0)>>
+      [] at = 1 -> <<SzSpecial(tp, 1), Mem(pr[1], 1, 2, "reg", 0), Mem(pr[2], f2, 3, "reg", 0)>>
+      [] at = 2 -> <<Mem(pr[1], 1, 1, "reg", 0), SzSpecial(tp, 2), Mem(pr[2], f2, 3, "reg", 0)>>
+      [] at = 3 -> <<Mem(pr[1], 1, 1, "reg", 0), Mem(pr[2], f2, 2, "reg", 0), SzSpecial(tp, 3)>>
+SevenzLayoutScns ==
+    { [Scn("members") EXCEPT !.kind = "7z", !.lim = lm, !.lim2 = MaxArchiveFileSize, !.calls = CallsFor(lm),
+                             !.members = SzLayout(pr, solid, tp, at)] :
+        lm \in MemberLimits, pr \in UNION { SzPairs(l) : l \in MemberLimits }, solid \in BOOLEAN,
+        tp \in {"empty", "dir", "anti"}, at \in 0..3 }
+SevenzLayoutOK == { s \in SevenzLayoutScns :
+                      /\ \A i \in DOMAIN s.members : s.members[i].type = "reg" => s.members[i].size \in MemberSizes(s.lim)
+                      \* the default limit (10 MiB members) only with empty files; no special entry: counted once
+                      /\ \A i \in DOMAIN s.members : (s.lim = MaxMemorySize /\ s.members[i].type # "reg") => s.members[i].type = "empty" }
+
+\* ---- histories of configuration calls before the extraction: each option alone, a lower limit configured earlier
+\* and then an unrelated option, two options in one call, pairs, repetitions, a call that mentions nothing;
+\* the archive holds a member of exactly the limit the history means and one of a byte more
+OtherOptions == {"buffer_size", "max_workers", "enable_parallel", "enable_caching", "enable_streaming"}
+Histories ==
+    { <<Call(0, o)>> : o \in OtherOptions }
+    \cup { <<Call(4096, ""), Call(0, o)>> : o \in OtherOptions }
+    \cup { <<Call(4096, o)>> : o \in {"enable_parallel", "buffer_size"} }
+    \cup { <<Call(0, "enable_parallel"), Call(0, "buffer_size")>>, <<Call(0, "enable_parallel"), Call(0, "enable_parallel")>>,
+           <<Call(4096, ""), Call(0, "")>>, <<Call(4096, ""), Call(8192, "")>>, <<Call(8192, ""), Call(4096, "")>>,
+           <<Call(0, "")>>, <<Call(4096, ""), Call(0, "enable_caching"), Call(0, "max_workers")>> }
+ConfigScns ==
+    { [Scn("members") EXCEPT !.kind = kd, !.lim = LimitAfter(h), !.lim2 = MaxArchiveFileSize, !.calls = h,
+                             !.members = <<Mem(LimitAfter(h), 1, 1, "reg", 0),
+                                           Mem(LimitAfter(h) + 1, IF kd = "7z" THEN 1 ELSE 2, 2, "reg", 0)>>] :
+        kd \in {"zip", "tar", "7z"}, h \in Histories }
+ConfigScnsOK == { s \in ConfigScns : s.kind = "zip" \/ (Len(s.calls) <= 2 /\ s.calls[Len(s.calls)].opt = "enable_parallel") }
 
 \* ---- part (b): the enumerated amplifier cases: <<construct, positions, magnitudes>>
 P2 == 2147483647
@@ -109,6 +149,24 @@ CostFamilies == {
     <<"zip_ratio",             {"skipped"},        {11534336, 67108864}>>,
     <<"zip_ratio",             {"admitted"},       {1048576, 8388608}>>,
     <<"mbox_from",             {"bare", "full"},   {100, 1000}>>,
+    \* hostile picture headers (first length field 0 / 1 / maximum / 2000 minimal segments) inside documents
+    <<"image_header", {
+        "jpeg_zero@rtf", "jpeg_tiny@rtf", "jpeg_huge@rtf", "jpeg_many@rtf", "png_zero@rtf", "png_tiny@rtf",
+        "png_huge@rtf", "png_many@rtf", "jpeg_zero@docx", "jpeg_tiny@docx", "jpeg_huge@docx", "jpeg_many@docx",
+        "png_zero@docx", "png_tiny@docx", "png_huge@docx", "png_many@docx", "gif_zero@docx", "gif_tiny@docx",
+        "gif_huge@docx", "gif_many@docx", "bmp_zero@docx", "bmp_tiny@docx", "bmp_huge@docx", "bmp_many@docx",
+        "jpeg_zero@pptx", "jpeg_tiny@pptx", "jpeg_huge@pptx", "jpeg_many@pptx", "png_zero@pptx", "png_tiny@pptx",
+        "png_huge@pptx", "png_many@pptx", "gif_zero@pptx", "gif_tiny@pptx", "gif_huge@pptx", "gif_many@pptx",
+        "bmp_zero@pptx", "bmp_tiny@pptx", "bmp_huge@pptx", "bmp_many@pptx", "jpeg_zero@xlsx", "jpeg_tiny@xlsx",
+        "jpeg_huge@xlsx", "jpeg_many@xlsx", "png_zero@xlsx", "png_tiny@xlsx", "png_huge@xlsx", "png_many@xlsx",
+        "gif_zero@xlsx", "gif_tiny@xlsx", "gif_huge@xlsx", "gif_many@xlsx", "bmp_zero@xlsx", "bmp_tiny@xlsx",
+        "bmp_huge@xlsx", "bmp_many@xlsx", "jpeg_zero@odt", "jpeg_tiny@odt", "jpeg_huge@odt", "jpeg_many@odt",
+        "png_zero@odt", "png_tiny@odt", "png_huge@odt", "png_many@odt", "gif_zero@odt", "gif_tiny@odt",
+        "gif_huge@odt", "gif_many@odt", "bmp_zero@odt", "bmp_tiny@odt", "bmp_huge@odt", "bmp_many@odt",
+        "jpeg_zero@epub", "jpeg_tiny@epub", "jpeg_huge@epub", "jpeg_many@epub", "png_zero@epub", "png_tiny@epub",
+        "png_huge@epub", "png_many@epub", "gif_zero@epub", "gif_tiny@epub", "gif_huge@epub", "gif_many@epub",
+        "bmp_zero@epub", "bmp_tiny@epub", "bmp_huge@epub", "bmp_many@epub", "jpeg_zero@ppt", "jpeg_tiny@ppt",
+        "jpeg_huge@ppt", "jpeg_zero@xls", "jpeg_tiny@xls", "jpeg_huge@xls" }, {1}>>,
     <<"pdf_loop",              {"kids_self", "count_only", "prev_loop", "ref_chain"}, {1000000}>> }
 
 \* nominal uncompressed size (KiB) of the file the concretiser builds: only used for the theorem runs and for
@@ -119,6 +177,7 @@ NominalKiB(c, mag, pos) ==
       [] c \in {"sevenz_ratio", "targz_ratio", "zip_ratio"} -> IF pos = "admitted" THEN mag \div 1024 ELSE 4
       [] c = "mbox_from" -> 1 + (mag * 34) \div 1024
       [] c = "pdf_loop" -> 1
+      [] c = "image_header" -> 2
       [] OTHER -> 4
 
 CostScns == UNION { { [Scn("cost") EXCEPT !.c = fam[1], !.pos = p, !.mag = m, !.skib = NominalKiB(fam[1], m, p)] :
@@ -130,6 +189,7 @@ GovernsScn(s) ==
          THEN "ExtractAllIgnoresFilter" ELSE ""
 
 Scenarios == (IF "a" \in Parts THEN ReadFileAll \cup SevenzScns \cup MemberScnsOK \cup Lim2Scns \cup DupScnsOK \cup TarTypeScnsOK
+                                \cup SevenzLayoutOK \cup ConfigScnsOK
               ELSE {})
              \cup (IF "b" \in Parts THEN CostScns ELSE {})
 
